@@ -243,7 +243,7 @@ def run(shard, tier, seed):
 
     @hypothesis.seed(env.subseed(seed, ID, shard["i"]))
     @settings(max_examples=n, deadline=None, database=None, suppress_health_check=list(hypothesis.HealthCheck), phases=[hypothesis.Phase.generate])
-    @given(st.randoms(use_true_random=False), st.sampled_from(chainexec.CFGS[:3] + chainexec.CFGS[:3] + chainexec.CFGS[3:]), st.integers(3, 9), st.booleans(),
+    @given(st.randoms(use_true_random=True), st.sampled_from(chainexec.CFGS[:3] + chainexec.CFGS[:3] + chainexec.CFGS[3:]), st.integers(3, 9), st.booleans(),
            st.sampled_from([-30, -30, -29, -1, 0, 1, 2, 31, 120, 10_000]), st.sampled_from([0, 0, 1, 2, 29, 30, 31, 600]), st.integers(0, 6), st.integers(0, 4))
     def prop(rnd, cfg, nb, deep, asm_off, found_delay, n_pool, fee_sel):
         deepd = chainexec.gen_deep(rnd) if (deep and cfg[0] == R.REAL_PERIOD) else None
